@@ -64,7 +64,7 @@ func mirrorIPFIXDispatcher(ch chan IPFIXUDPMsg) {
 
 func mirrorIPFIX(dst net.IP, port int, ch chan IPFIXUDPMsg) error {
 	var (
-		packet = make([]byte, opts.IPFIXUDPSize)
+		packet = make([]byte, opts.IPFIXUDPSize+mirror.IPv6HLen+mirror.UDPHLen)
 		msg    IPFIXUDPMsg
 		pLen   int
 		err    error
